@@ -70,6 +70,8 @@ type stats struct {
 	proofLenDrift                                                                                   int
 	driftExample                                                                                    string
 	proofsSeenBefore                                                                                int
+	// the copy and versions families
+	copies, handleObs, references, dereferences, caps, restarts, versionsOpened, versionsFromDisk int
 }
 
 func (s *stats) add(o *stats) {
@@ -85,6 +87,14 @@ func (s *stats) add(o *stats) {
 	s.emptyProofRejected += o.emptyProofRejected
 	s.proofLenDrift += o.proofLenDrift
 	s.proofsSeenBefore += o.proofsSeenBefore
+	s.copies += o.copies
+	s.handleObs += o.handleObs
+	s.references += o.references
+	s.dereferences += o.dereferences
+	s.caps += o.caps
+	s.restarts += o.restarts
+	s.versionsOpened += o.versionsOpened
+	s.versionsFromDisk += o.versionsFromDisk
 	if s.driftExample == "" {
 		s.driftExample = o.driftExample
 	}
@@ -92,27 +102,31 @@ func (s *stats) add(o *stats) {
 
 // inst is one real trie under test together with its databases.
 type inst struct {
-	kind    string // "plain" | "secure"
-	uni     *universe
-	limit   uint16
-	direct  bool // observe through the object itself (perturbs its caches) instead of a copy
-	tab     *rootTable
-	rng     *rand.Rand
-	st      stats
-	disk    *dbm.MemDB
-	tdb     *trie.Database
-	pt      *trie.Trie
-	sec     *trie.SecureTrie
-	height  uint64
-	step    int
-	flushed []common.Hash // roots written to disk
-	pool    [][]byte      // proof nodes seen earlier (material for swap-in tampering)
-	prevOK  bool
-	prevRt  common.Hash
-	prevC   []int
-	pkeys   map[string][]byte // path key per key (the key itself, or its Keccak hash)
-	history []string          // abstract actions applied since reset (for records)
-	notes   []*mismatch       // findings that do not end the behaviour (one per class)
+	kind   string // "plain" | "secure"
+	uni    *universe
+	limit  uint16
+	direct bool // observe through the object itself (perturbs its caches) instead of a copy
+	// copyBatch: the disk's batches copy the keys and values they are given (what the LevelDB
+	// backends do); otherwise they keep the slices until they are written (MemDB, Bolt, Badger;
+	// dbm.SetDeleter: "CONTRACT: key, value readonly []byte")
+	copyBatch bool
+	tab       *rootTable
+	rng       *rand.Rand
+	st        stats
+	disk      *dbm.MemDB
+	tdb       *trie.Database
+	pt        *trie.Trie
+	sec       *trie.SecureTrie
+	height    uint64
+	step      int
+	flushed   []common.Hash // roots written to disk
+	pool      [][]byte      // proof nodes seen earlier (material for swap-in tampering)
+	prevOK    bool
+	prevRt    common.Hash
+	prevC     []int
+	pkeys     map[string][]byte // path key per key (the key itself, or its Keccak hash)
+	history   []string          // abstract actions applied since reset (for records)
+	notes     []*mismatch       // findings that do not end the behaviour (one per class)
 }
 
 // note records a property-level finding without abandoning the behaviour.
@@ -125,9 +139,29 @@ func (in *inst) note(m *mismatch) {
 	in.notes = append(in.notes, m)
 }
 
+// copyingDB is a MemDB whose batches copy what they are given.
+type copyingDB struct{ *dbm.MemDB }
+
+func (d copyingDB) NewBatch() dbm.Batch { return &copyingBatch{d.MemDB.NewBatch()} }
+
+type copyingBatch struct{ dbm.Batch }
+
+func (b *copyingBatch) Set(k, v []byte) {
+	b.Batch.Set(append([]byte{}, k...), append([]byte{}, v...))
+}
+func (b *copyingBatch) Delete(k []byte) { b.Batch.Delete(append([]byte{}, k...)) }
+
+// diskDB is the disk database as the trie.Database sees it.
+func (in *inst) diskDB() dbm.DB {
+	if in.copyBatch {
+		return copyingDB{in.disk}
+	}
+	return in.disk
+}
+
 func (in *inst) reset() error {
 	in.disk = dbm.NewMemDB()
-	in.tdb = trie.NewDatabase(in.disk)
+	in.tdb = trie.NewDatabase(in.diskDB())
 	in.height, in.step = 0, 0
 	in.flushed, in.prevOK, in.history = nil, false, nil
 	return in.open(common.EmptyHash, in.tdb)
@@ -592,7 +626,7 @@ func (in *inst) checkOldRoot() *mismatch {
 	}
 	in.st.oldRoots++
 	old := &inst{kind: in.kind, uni: in.uni, limit: in.limit, tab: in.tab, rng: in.rng, pkeys: in.pkeys, direct: true}
-	if err := old.open(root, trie.NewDatabase(in.disk)); err != nil {
+	if err := old.open(root, trie.NewDatabase(in.diskDB())); err != nil {
 		return mm("reopen-error", "root %x was written to disk by Database.Commit but cannot be opened from the disk: %v", root, err)
 	}
 	var content []int
@@ -687,7 +721,7 @@ func (in *inst) apply(a *action, content []int) *mismatch {
 			if m := in.checkOldRoot(); m != nil {
 				return m
 			}
-			in.tdb = trie.NewDatabase(in.disk)
+			in.tdb = trie.NewDatabase(in.diskDB())
 		}
 		if err := in.open(root, in.tdb); err != nil {
 			return mm("reopen-error", "opening the committed root %x (%s) failed: %v", root, a.Op, err)
